@@ -116,7 +116,14 @@ func (e *Eval) call(fr *frame, x *ssa.Call, st State) AV {
 			return out
 		}
 		if len(callee.Blocks) > 0 {
+			nLoops := len(e.Loops)
+			e.sites = append(e.sites, x)
 			res, out := e.evalFunc(callee, args, bindings, st, fr.depth+1, false)
+			e.sites = e.sites[:len(e.sites)-1]
+			if len(e.Loops) > nLoops {
+				// the callee ran a loop to completion: what follows the call is "after the loop"
+				fr.afterLp[x.Block()] = true
+			}
 			if gr, gs, ok := e.guardedResult(x, callee, e.lastRets); ok {
 				res, out = gr, gs
 			}
@@ -523,6 +530,30 @@ func (e *Eval) model(fr *frame, x *ssa.Call, callee *ssa.Function, args []AV, st
 			e.escape(fr, st, d, "norm.Append destination")
 		}
 		return ret(BytesV{Src: "⊤: normalisation appended to " + shortAV(args[1])})
+	case "fmt.Sprintf":
+		// the text with its arguments in place: constant pieces and the argument values
+		if f, ok := args[0].(StrV); ok && f.Kind == skConst {
+			var va []AV
+			if len(args) > 1 {
+				if sv, ok := args[1].(SliceV); ok {
+					if vc, ok := st[sv.O].(VecC); ok {
+						va = vc.Elems
+					}
+				}
+			}
+			if parts, ok := formatParts(f.S, va); ok {
+				switch len(parts) {
+				case 0:
+					return ret(CStr(""))
+				case 1:
+					if sv, ok := parts[0].(StrV); ok {
+						return ret(sv)
+					}
+				}
+				return ret(StrV{Kind: skConcat, Parts: parts})
+			}
+		}
+		return ret(TopStr("fmt.Sprintf"))
 	case "errors.New":
 		s, _ := args[0].(StrV)
 		if s.Kind == skConcat {
@@ -593,7 +624,47 @@ func (e *Eval) model(fr *frame, x *ssa.Call, callee *ssa.Function, args []AV, st
 		if n, ok := args[3].(IntV); ok && n.Kind == ikLin {
 			r.LenKnown, r.Len = true, n.L
 		}
+		// a fresh slice: an object of its own, so that what is returned can be identified with it
+		o := e.newObj(okBuf, x, "result of pbkdf2.Key")
+		e.setContentFresh(st, o, BufC{r})
+		r.Obj = o
 		return ret(r)
+	case "net/http.Get":
+		return ret(TupleV{ResV{Kind: "http.Response", A: args[0], Site: x}, e.fallible(x, name, st)})
+	case "io/ioutil.ReadAll", "io.ReadAll":
+		if rv, ok := args[0].(ResV); ok && rv.Kind == "http.Body" {
+			b := BytesV{Src: "download", Str: StrV{Kind: skSrc, S: "download", X: rv.A}}
+			o := e.newObj(okBuf, x, "downloaded bytes")
+			e.setContentFresh(st, o, BufC{b})
+			b.Obj = o
+			return ret(TupleV{b, e.fallible(x, name, st)})
+		}
+		return ret(TupleV{BytesV{Src: "⊤: ReadAll of " + shortAV(args[0])}, e.fallible(x, name, st)})
+	case "os.OpenFile":
+		return ret(TupleV{ResV{Kind: "os.File", A: args[0], Flags: args[1], Site: x}, e.fallible(x, name, st)})
+	case "os.Create":
+		return ret(TupleV{ResV{Kind: "os.File", A: args[0], Site: x}, e.fallible(x, name, st)})
+	case "bufio.NewWriter", "bufio.NewWriterSize":
+		o := e.newObj(okCell, x, "bufio.Writer has unflushed data")
+		e.setContentFresh(st, o, CellC{KBool(false)})
+		return ret(ResV{Kind: "bufio.Writer", A: args[0], O: o, Site: x})
+	case "(*bufio.Writer).Flush":
+		if rv, ok := args[0].(ResV); ok && rv.O != nil {
+			e.setContent(fr, st, rv.O, CellC{KBool(false)})
+		}
+		return ret(e.fallible(x, name, st))
+	case "(*html/template.Template).Execute", "(*text/template.Template).Execute":
+		if rv, ok := args[1].(ResV); ok && rv.O != nil {
+			e.setContent(fr, st, rv.O, CellC{KBool(true)})
+		}
+		if len(args) > 2 {
+			if pv, ok := args[2].(PtrV); ok && pv.O != nil {
+				if vc, ok := st[pv.O].(VecC); ok {
+					args = append(append([]AV{}, args[:2]...), VecV{append([]AV{}, vc.Elems...)})
+				}
+			}
+		}
+		return ret(e.fallible(x, name, st))
 	case "(*sync.Once).Do":
 		if fv, ok := args[1].(FuncV); ok {
 			for _, b := range fv.Bindings {
@@ -630,7 +701,32 @@ func (e *Eval) model(fr *frame, x *ssa.Call, callee *ssa.Function, args []AV, st
 	if strings.Contains(callee.Name(), "Must") {
 		e.event("P1", Violated, x, "reachable call of %s (panics on error)", name)
 	}
+	// an unmodelled external function whose last result is an error: that error comes from this call
+	if sig := callee.Signature.Results(); sig.Len() > 0 && isErrorType(sig.At(sig.Len()-1).Type()) {
+		if sig.Len() == 1 {
+			return ret(e.fallible(x, name, st))
+		}
+		out := make(TupleV, sig.Len())
+		for i := 0; i < sig.Len()-1; i++ {
+			out[i] = e.topOf(sig.At(i).Type(), "call "+name)
+		}
+		out[sig.Len()-1] = e.fallible(x, name, st)
+		return ret(out)
+	}
 	return ret(e.topOf(x.Type(), "call "+name))
+}
+
+// fallible gives the error result of a call that can fail: unknown now, refined on the
+// edges where it is compared with nil.
+func (e *Eval) fallible(x ssa.Instruction, name string, st State) ErrV {
+	if e.errObj == nil {
+		e.errObj = map[ssa.Instruction]*Obj{}
+	}
+	if e.errObj[x] == nil {
+		e.errObj[x] = e.newObj(okCell, x, "outcome of "+name)
+	}
+	e.setContentFresh(st, e.errObj[x], CellC{BoolV{}})
+	return ErrV{Kind: ekFrom, From: name, Site: x}
 }
 
 func (e *Eval) errorf(fr *frame, x *ssa.Call, args []AV, st State) AV {
@@ -678,6 +774,54 @@ func (e *Eval) errorf(fr *frame, x *ssa.Call, args []AV, st State) AV {
 		return ErrV{Kind: ekWrap, G: wrapped.G, Format: f.S, Args: va, Site: x}
 	}
 	return ErrV{Kind: ekFresh, Format: f.S, Args: va, Site: x}
+}
+
+// formatParts splits a constant format into its literal pieces and the arguments its verbs
+// consume, in order.  Only the plain verbs (%s %v %d %q %x with flags/width) are understood.
+func formatParts(f string, va []AV) ([]AV, bool) {
+	var parts []AV
+	lit := ""
+	flush := func() {
+		if lit != "" {
+			parts = append(parts, CStr(lit))
+			lit = ""
+		}
+	}
+	argi := 0
+	for i := 0; i < len(f); i++ {
+		if f[i] != '%' {
+			lit += string(f[i])
+			continue
+		}
+		j := i + 1
+		for j < len(f) && strings.ContainsRune("+-# 0123456789.", rune(f[j])) {
+			j++
+		}
+		if j >= len(f) {
+			return nil, false
+		}
+		switch f[j] {
+		case '%':
+			lit += "%"
+		case 's', 'v', 'd', 'q', 'x', 'X', 'w', 't', 'c':
+			if argi >= len(va) || va[argi] == nil {
+				return nil, false
+			}
+			flush()
+			a := va[argi]
+			if sv, ok := a.(StrV); ok && f[j] != 'q' && j == i+1 {
+				parts = append(parts, sv)
+			} else {
+				parts = append(parts, StrV{Kind: skTop, S: fmt.Sprintf("%%%c of %v", f[j], a), X: a})
+			}
+			argi++
+		default:
+			return nil, false
+		}
+		i = j
+	}
+	flush()
+	return parts, true
 }
 
 // bigMethod models the math/big methods the encoders use.  args[0] is the receiver.
@@ -1069,15 +1213,33 @@ type ReadInfo struct {
 // as valid only on the nil path (resolved when the caller tests the error).
 func (e *Eval) guardedResult(x *ssa.Call, callee *ssa.Function, rets []retRec) ([]AV, State, bool) {
 	sig := callee.Signature.Results()
-	if sig.Len() < 2 || !isErrorType(sig.At(sig.Len()-1).Type()) || len(rets) < 2 {
+	if sig.Len() < 1 || !isErrorType(sig.At(sig.Len()-1).Type()) || len(rets) < 1 {
 		return nil, nil, false
 	}
 	var okV, errV []AV
 	var okS, errS State
+	var split []retRec
 	for _, r := range rets {
 		if len(r.vals) != sig.Len() {
 			return nil, nil, false
 		}
+		ev := asErr(r.vals[len(r.vals)-1])
+		if ev.Kind == ekFrom && !ev.NonNil && ev.Site != nil && ev.Site != ssa.Instruction(x) {
+			// `return f(...)` handing on f's error untested: this return stands for both outcomes of f
+			okR := retRec{vals: append([]AV{}, r.vals...), st: r.st.clone()}
+			okR.vals[len(okR.vals)-1] = ErrV{Kind: ekNil}
+			e.applyOutcome(okR.st, ev.Site, true)
+			erR := retRec{vals: append([]AV{}, r.vals...), st: r.st.clone()}
+			nn := ev
+			nn.NonNil = true
+			erR.vals[len(erR.vals)-1] = nn
+			e.applyOutcome(erR.st, ev.Site, false)
+			split = append(split, okR, erR)
+			continue
+		}
+		split = append(split, r)
+	}
+	for _, r := range split {
 		ev := asErr(r.vals[len(r.vals)-1])
 		switch {
 		case ev.Kind == ekNil:
@@ -1125,7 +1287,21 @@ func (e *Eval) guardedResult(x *ssa.Call, callee *ssa.Function, rets []retRec) (
 			} else if !inErr {
 				out[o] = c // created on the success path only
 			} else {
-				out[o] = topContent(o, "differs between the success and the failure return")
+				// unknown until the caller tests the error: both contents are remembered and the
+				// right one is put back on the edge where the outcome is known (refineOnEdge),
+				// provided nothing touched the object in between
+				tag := fmt.Sprintf("differs between the success and the failure return of call %p", x)
+				ph := topContent(o, tag)
+				out[o] = ph
+				if _, isVec := ph.(VecC); !isVec {
+					if e.alts == nil {
+						e.alts = map[ssa.Instruction]map[*Obj]altContent{}
+					}
+					if e.alts[x] == nil {
+						e.alts[x] = map[*Obj]altContent{}
+					}
+					e.alts[x][o] = altContent{ok: c, err: ec, placeholder: ph.String()}
+				}
 			}
 		}
 	}
